@@ -48,6 +48,12 @@ SplitLine(f, i) ==
       a == [t \in 1..Len(ln.c.v) |-> ln.c.v[t] \div 2]
       b == [t \in 1..Len(ln.c.v) |-> ln.c.v[t] - (ln.c.v[t] \div 2)]
   IN [f EXCEPT !.lines = SubSeq(f.lines, 1, i - 1) \o <<[ln EXCEPT !.c.v = a], [ln EXCEPT !.c.v = b]>> \o SubSeq(f.lines, i + 1, Len(f.lines))]
+\* ... into parts of both signs (a correction line): value + 3 and -3
+SplitSigned(f, i) ==
+  LET ln == f.lines[i]
+      a == [t \in 1..Len(ln.c.v) |-> ln.c.v[t] + 3]
+      b == [t \in 1..Len(ln.c.v) |-> -3]
+  IN [f EXCEPT !.lines = SubSeq(f.lines, 1, i - 1) \o <<[ln EXCEPT !.c.v = a], [ln EXCEPT !.c.v = b]>> \o SubSeq(f.lines, i + 1, Len(f.lines))]
 \* consistent injective renumbering of the system ids (negative ids included)
 Renaming(id) == 7 - 3 * id
 RenameIds(f) == [f EXCEPT !.lines = [i \in 1..Len(f.lines) |->
